@@ -248,6 +248,7 @@ func ruleC05(c *Ctx, r *Report) {
 		// the plaintext operand is the string form of the scalar parameter
 		r.Check(okSel, "C05-R2", fmt.Sprintf("%s:class(%s)", sf.Name(), want), c.InstrPos(call), fmt.Sprintf("arm [%s] yields %s", strings.Join(keyAtoms, ","), got), fmt.Sprintf("arm for class %s (guards %v) yields %s", want, keyAtoms, got))
 	}
+	wrapperArmsCompleteRule(c, r, p, ph, "C05-R2")
 	for _, cl := range []string{"RedactedISODate", "RedactedObjectId", "RedactedUUID", "email", "generic"} {
 		if !classesSeen[cl] {
 			r.Bad("C05-R2", fmt.Sprintf("%s:class(%s)", sf.Name(), cl), c.Pos(sf.Pos()), "no arm of the scalar step selects the placeholder of this class")
@@ -349,6 +350,7 @@ func ruleC19(c *Ctx, r *Report) {
 	def := ph.str("RedactedString")
 	okE, _ := ph.isEmail(def)
 	r.Check(def != "" && !okE && !strings.HasPrefix(def, "$"), "C19-R1", "const:RedactedString:reclassified", "src/constants.go", fmt.Sprintf("%q is classified as an ordinary string again (not e-mail shaped, no leading '$')", def), fmt.Sprintf("the default replacement %q would be classified differently on a second pass", def))
+	wrapperArmsCompleteRule(c, r, p, ph, "C19-R1")
 	for _, n := range []string{"RedactedISODate", "RedactedObjectId", "RedactedUUID"} {
 		s := ph.str(n)
 		r.Check(s != "" && !strings.HasPrefix(s, "$"), "C19-R1", "const:"+n+":reclassified", "src/constants.go", "a non-empty string without a leading '$': selected again by its wrapper key and string type", "placeholder would be treated as a field reference / empty on a second pass")
@@ -420,28 +422,7 @@ func constantPlaceholderRule(c *Ctx, r *Report, p *Prov, ph *placeholders, rule 
 			r.Check(okV, rule, construct, c.InstrPos(i), why, "a redacting path derives its output from something other than the fixed placeholders: "+why)
 		})
 	}
-	// the choke point itself
-	allInstrs(ph.choke, func(i ssa.Instruction) {
-		ret, ok := i.(*ssa.Return)
-		if !ok {
-			return
-		}
-		v := resolveLocal(ret.Results[0])
-		construct := fmt.Sprintf("%s:return(%s)", ph.choke.Name(), valueLabel(v))
-		okV := false
-		if len(ph.choke.Params) > 1 && v == ssa.Value(ph.choke.Params[1]) {
-			okV = true
-		}
-		if call, ok := v.(*ssa.Call); ok && strings.HasSuffix(calleeKey(&call.Call), ".EncodeToString") {
-			// encrypt mode only
-			for _, a := range p.atomsAt(ret.Block()) {
-				if a.Kind == "cfg" && a.Pol && a.Name == "shouldEncrypt" {
-					okV = true
-				}
-			}
-		}
-		r.Check(okV, rule, construct, c.InstrPos(i), "returns its placeholder parameter (or, in encrypt mode only, the ciphertext encoding)", "in placeholder mode the choke point returns something other than its placeholder parameter")
-	})
+	chokeReturnsRule(c, r, p, ph, rule)
 }
 
 // numbersKeptRule (C04-R2): number tokens stay json.Number.
@@ -572,4 +553,111 @@ func insertionOrderRule(c *Ctx, r *Report, rule string) {
 	}
 	sort.Strings(rev)
 	r.Check(okSer && len(rev) == 0, rule, ser.Name()+":front-to-next", c.Pos(ser.Pos()), "serialiser iterates Front()->Next() over its map; no Back/Prev/Delete/ReplaceKey on the per-line path", fmt.Sprintf("iteration order or membership can change: frontToNext=%v %v", okSer, rev))
+}
+
+// chokeReturnsRule: every return of the string choke point is its placeholder parameter
+// or - in encrypt mode only - the base64 text of the ciphertext just computed from its
+// own plaintext parameter (never a remembered text: a memo table keyed by a digest hands
+// one value's ciphertext to another value).
+func chokeReturnsRule(c *Ctx, r *Report, p *Prov, ph *placeholders, rule string) {
+	if ph.choke == nil {
+		r.Undecided(rule, "choke-point", "-", "string choke point not found")
+		return
+	}
+	allInstrs(ph.choke, func(i ssa.Instruction) {
+		ret, ok := i.(*ssa.Return)
+		if !ok {
+			return
+		}
+		v := resolveLocal(ret.Results[0])
+		construct := fmt.Sprintf("%s:return(%s)", ph.choke.Name(), valueLabel(v))
+		okV := false
+		if len(ph.choke.Params) > 1 && v == ssa.Value(ph.choke.Params[1]) {
+			okV = true
+		}
+		if call, ok := v.(*ssa.Call); ok && strings.HasSuffix(calleeKey(&call.Call), ".EncodeToString") {
+			// encrypt mode only
+			for _, a := range p.atomsAt(ret.Block()) {
+				if a.Kind == "cfg" && a.Pol && a.Name == "shouldEncrypt" {
+					okV = true
+				}
+			}
+		}
+		r.Check(okV, rule, construct, c.InstrPos(i), "returns its placeholder parameter (or, in encrypt mode only, the ciphertext encoding)", "the choke point returns something other than its placeholder parameter or the encoding of the ciphertext it just computed (a remembered or otherwise derived text)")
+	})
+}
+
+// wrapperArmsCompleteRule (C05-R2 / C19-R1): once the key context of an extended-JSON
+// wrapper is established ($date, $oid, base64 under $binary, value a string) EVERY path
+// ends in the placeholder of that class - no content test (does it decode? is it e-mail
+// shaped?) can send some strings of the class elsewhere. This is what makes each
+// placeholder land in its own class again on a second pass.
+func wrapperArmsCompleteRule(c *Ctx, r *Report, p *Prov, ph *placeholders, rule string) {
+	sf := ph.scalarFn
+	for _, call := range callsIn(sf, func(k string, cc *ssa.Call) bool { return cc.Call.StaticCallee() == ph.choke }) {
+		s, isC := constString(call.Call.Args[1])
+		if !isC {
+			continue
+		}
+		class := ""
+		for _, n := range []string{"RedactedISODate", "RedactedObjectId", "RedactedUUID"} {
+			if s == ph.str(n) {
+				class = n
+			}
+		}
+		if class == "" {
+			continue
+		}
+		// the innermost key-context test on the dominator path of the call
+		var entry *ssa.BasicBlock
+		for _, f := range factsAt(call.Block()) {
+			a := p.atomOf(f.Cond, f.Pol)
+			if a.Kind == "strconst" && a.Pol && f.If != nil {
+				b := f.If.Block()
+				succ := b.Succs[0]
+				if !f.Pol {
+					succ = b.Succs[1]
+				}
+				// factsAt walks from the call upwards: the first strconst fact is the innermost
+				if entry == nil {
+					entry = succ
+				}
+			}
+		}
+		construct := fmt.Sprintf("%s:class(%s):every-path", sf.Name(), class)
+		if entry == nil {
+			r.Undecided(rule, construct, c.InstrPos(call), "no key-context test dominates the wrapper arm")
+			continue
+		}
+		var bad []string
+		seen := map[*ssa.BasicBlock]bool{}
+		var walk func(b *ssa.BasicBlock)
+		walk = func(b *ssa.BasicBlock) {
+			if seen[b] {
+				return
+			}
+			seen[b] = true
+			if ret, ok := b.Instrs[len(b.Instrs)-1].(*ssa.Return); ok {
+				v := peel(resolveLocal(ret.Results[0]))
+				rc, ok := v.(*ssa.Call)
+				okRet := ok && rc.Call.StaticCallee() == ph.choke
+				if okRet {
+					s2, isC2 := constString(rc.Call.Args[1])
+					okRet = isC2 && s2 == s
+				}
+				if !okRet {
+					bad = append(bad, "return at "+c.InstrPos(ret)+" yields "+valueLabel(v))
+				}
+				return
+			}
+			for _, sc := range b.Succs {
+				walk(sc)
+			}
+		}
+		walk(entry)
+		sort.Strings(bad)
+		r.Check(len(bad) == 0, rule, construct, c.InstrPos(call),
+			"every path below the key-context test yields the "+class+" placeholder: the class is decided by key context and string type alone",
+			"below the key-context test of this class some paths yield something else (a content test splits the class; on a second pass the first pass's output can change): "+strings.Join(bad, "; "))
+	}
 }
